@@ -1,6 +1,7 @@
 package cfgx
 
 import (
+	"io"
 	"net/http"
 	"net/url"
 	"sort"
@@ -29,7 +30,14 @@ type Msg struct {
 	ResHdr  []Pair `json:"res_hdr,omitempty"`
 	SetCk   []Pair `json:"set_cookies,omitempty"` // response cookies
 	API     bool   `json:"api,omitempty"`         // addressed to the proxy's own API (C13)
+	// ReqChunked / ResChunked: the message has a (small) body sent with
+	// Transfer-Encoding: chunked; net/http keeps that header outside the map.
+	ReqChunked bool `json:"req_chunked,omitempty"`
+	ResChunked bool `json:"res_chunked,omitempty"`
 }
+
+// ChunkBody is the body of chunked messages.
+const ChunkBody = "hello"
 
 // URL is the request URL as text.
 func (m *Msg) URL() string {
@@ -57,6 +65,11 @@ func (m *Msg) Request() *http.Request {
 		}
 		req.Header.Set("Cookie", strings.Join(cs, "; "))
 	}
+	if m.ReqChunked { // as http.ReadRequest delivers a chunked message
+		req.Body = io.NopCloser(strings.NewReader(ChunkBody))
+		req.ContentLength = -1
+		req.TransferEncoding = []string{"chunked"}
+	}
 	return req
 }
 
@@ -72,6 +85,11 @@ func (m *Msg) Response(req *http.Request) *http.Response {
 	for _, c := range m.SetCk {
 		res.Header.Add("Set-Cookie", c.N+"="+c.V)
 	}
+	if m.ResChunked {
+		res.Body = io.NopCloser(strings.NewReader(ChunkBody))
+		res.ContentLength = -1
+		res.TransferEncoding = []string{"chunked"}
+	}
 	return res
 }
 
@@ -86,6 +104,27 @@ type State struct {
 	ResH                              http.Header
 	ResCookies                        []Pair
 	API                               bool
+	ReqChunked                        bool
+	ResChunked                        bool
+}
+
+// HeaderValues returns the values of header name on the message of kind k,
+// including the headers net/http keeps outside the header map: Host (requests
+// only: the request's host) and Transfer-Encoding.
+func (s *State) HeaderValues(k Kind, name string) []string {
+	switch http.CanonicalHeaderKey(name) {
+	case "Host":
+		if k == Req && s.Host != "" {
+			return []string{s.Host}
+		}
+		return nil
+	case "Transfer-Encoding":
+		if (k == Req && s.ReqChunked) || (k == Res && s.ResChunked) {
+			return []string{"chunked"}
+		}
+		return nil
+	}
+	return s.H(k)[http.CanonicalHeaderKey(name)]
 }
 
 // NewState derives the initial reference state from the abstract message
@@ -93,6 +132,7 @@ type State struct {
 func NewState(m *Msg) *State {
 	s := &State{Method: m.Method, Scheme: m.Scheme, Host: m.Host, Path: m.Path, Query: m.Query,
 		ReqH: http.Header{}, ResH: http.Header{}, Status: m.Status, API: m.API,
+		ReqChunked: m.ReqChunked, ResChunked: m.ResChunked,
 		ReqCookies: m.Cookies, ResCookies: m.SetCk}
 	for _, p := range m.ReqHdr {
 		s.ReqH.Add(p.N, p.V)
